@@ -55,3 +55,44 @@ def run_repo_tests(ctx, files: list[str], which: str, timeout: float = 1500.0) -
     ctx.count("contract_evaluations_in_repo_tests", stats_total)
     ctx.case(("repo-tests", tuple(files), which), stats_total > 0,
              sample={"repo_tests": files, "contracts": which, "pytest_summary": tail[0][:200], "contract_evaluations": stats_total})
+
+
+def run_cli_under_contracts(ctx, commands: list[list[str]], which: str = "compute,env,solvers", timeout: float = 600.0) -> None:
+    """Real command lines (`python -m incomplete_cooperative ...`) in child interpreters with the contracts switched on.
+
+    Only contract violations are verdicts."""
+    import shutil
+    base = tempfile.mkdtemp(prefix="vmon-cli-contracts-")
+    try:
+        for i, args in enumerate(commands):
+            log = os.path.join(base, f"log{i}.jsonl")
+            e = venv.child_env({"VMON_CONTRACTS": which, "VMON_CONTRACT_LOG": log})
+            e["PYTHONPATH"] = os.pathsep.join([str(venv.ROOT / "vmon" / "site"), e["PYTHONPATH"]])
+            cmd = [venv.PYTHON, "-c", "import sys; from incomplete_cooperative.__main__ import main, get_argument_parser; "
+                   "main(get_argument_parser(), ['prog'] + sys.argv[1:])", "--model-dir", os.path.join(base, f"out{i}"), *args]
+            try:
+                r = subprocess.run(cmd, cwd=base, env=e, capture_output=True, text=True, timeout=timeout)
+            except subprocess.TimeoutExpired:
+                ctx.count("cli_contract_runs_timed_out")
+                continue
+            ctx.count("cli_contract_runs")
+            total = 0
+            if os.path.exists(log):
+                for line in open(log):
+                    try:
+                        rec = json.loads(line)
+                    except ValueError:
+                        continue
+                    if rec["kind"] == "stats":
+                        total += sum(rec["stats"].values())
+                        for k, v in rec["stats"].items():
+                            ctx.count(f"cli_{k}", v)
+                    elif rec["kind"] == "violation":
+                        ctx.violation("contract-broken-in-cli-run:" + rec["contract"].split(":")[0].replace(" ", "-"),
+                                      f"{rec['contract']} :: {rec['detail'][:400]} (command: {' '.join(args)})",
+                                      {"kind": "cli-contracts", "args": args, "contracts": which})
+            ctx.count("contract_evaluations_in_cli_runs", total)
+            ctx.case(("cli-contracts", tuple(args)), total > 0,
+                     sample={"cli": " ".join(args), "contracts": which, "exit": r.returncode, "contract_evaluations": total} if i == 0 else None)
+    finally:
+        shutil.rmtree(base, ignore_errors=True)
